@@ -17,13 +17,13 @@ MANIFEST = {
             "each on two levels), every assignment of 3 keys to the sections, one or two config sources where the later source redefines "
             "a section (including self-inherit through the sources), is collapsed with the real ConfigManager and compared with an "
             "independent breadth-first reference; every graph with an inheritance cycle, a missing target or a self-inherit with no "
-            "older source must raise ConfigurationError; seeded random deeper trees.  Under contract and proved for any number of stacked "
+            "older source must raise ConfigurationError; five diamond-shaped graphs (a section reached along two paths is no cycle); seeded random deeper trees.  Under contract and proved for any number of stacked "
             "sections: _ConfigStack.render_value takes a key's value from the first stacked section that sets it (None when none does).  The "
             "breadth-first collection order stays bounded, hence level 'other'.",
-    "note": "Trusted: HardCodedConfigSection rendering of values, the @configurable type hints; inheritance graphs that are not trees "
-            "(a section reachable twice) are outside the statement's domain: pkgcore reports them as recursive.",
+    "note": "Trusted: HardCodedConfigSection rendering of values, the @configurable type hints.  Graphs in which a section is reached along two paths (diamonds) are "
+            "covered by five fixed shapes only, not by the exhaustive tree enumeration.",
 }
-ASSUMPTIONS = ["the inheritance graph is a tree or has a cycle / dangling edge (diamonds are reported as recursive by pkgcore and are not claimed)"]
+ASSUMPTIONS = ["beyond trees, cyclic / dangling graphs and five diamond shapes, inheritance graphs are not enumerated"]
 SPECIAL = ("inherit", "inherit-only", "class", "default")
 
 
